@@ -270,6 +270,44 @@ def work_tree(arg):
     from textx import metamodel_from_str
 
     mm_user = metamodel_from_str(gtext, classes=user_classes())
+    # two-file variant: the model imports another file of the same meta-model (a load nested in the main load)
+    from textx.scoping.providers import PlainNameImportURI
+
+    g_imp = [("Model", {}, ("seq", (("asg", "imports", "*=", ("ref", "Import"), None, False), ("asg", "items", "*=", ("ref", "Item"), None, False)))),
+             ("Import", {}, ("seq", (("lit", "import"), ("asg", "importURI", "=", ("ref", "STRING"), None, False))))] + [r for r in g if r[0] != "Model"]
+    interp_imp, mm_imp, err = diff.compile_both(g_imp, {})
+    if err:
+        u.fail(["tree-import", gtext], {"grammar": g_imp, "cfg": {}, "input": None}, sig="compile", what=err)
+        return u
+    mm_imp_user = metamodel_from_str(refpeg.to_text(g_imp), classes=user_classes())
+    for x in (mm_imp, mm_imp_user):
+        x.register_scope_providers({"*.*": PlainNameImportURI()})
+    libfn = os.path.join(core.rundir(), "c06lib-%d.m" % os.getpid())
+    with open(libfn, "w") as fh:
+        fh.write("n libnode h l libhead { l libleaf : 5 }")
+    for toks in token_lists:
+        text = 'import "%s"\n' % os.path.basename(libfn) + " ".join(toks)
+        try:
+            rv = interp_imp.load(text)
+        except refpeg.Reject:
+            continue
+        for mode, mm in (("file/import", mm_imp), ("file/import/user-classes", mm_imp_user)):
+            cid = ["tree", ck, text, mode]
+            try:
+                fn = os.path.join(core.rundir(), "c06main-%d.m" % os.getpid())
+                with open(fn, "w", newline="") as fh:
+                    fh.write(text)
+                m = mm.model_from_file(fn)
+                bad = check_model(m, text, rv, fn)
+                lib = [x for x in m._tx_model_repository.all_models if x is not m]
+                if len(lib) != 1 or any(o._tx_position >= o._tx_position_end or o._tx_position_end > 39 for o in lib[0].items):
+                    bad.append(("imported model spans", [(o._tx_position, o._tx_position_end) for x in lib for o in x.items]))
+            except Exception as e:
+                bad = [("exception", "%s: %s" % (type(e).__name__, e))]
+            u.case(cid, nontrivial=True)
+            if bad:
+                u.fail(cid, {"grammar": g_imp, "cfg": {}, "input": text, "mode": "file"}, sig="tree-import %s" % (bad[0][0],),
+                       what="tree grammar with import | input=%r | %s :: %s" % (text, mode, json.dumps(bad[:2], default=str)[:400]))
     for toks in token_lists:
         for text in dict.fromkeys(layouts(toks, ck)):
             try:
